@@ -15,11 +15,14 @@ CHECKS = {
          "Every byte the real writer emits for PRNG message sequences (all kinds, boundary field values) must equal an independent BEP 3/6/9/10/11 reference encoding; the same stream, re-fragmented by 5 patterns, must come out of the client's own reader as identical messages; sum of BlockUploaded equals piece payload bytes on the wire; handshake bytes via Dial/Accept equal the 68-byte layout.",
          "Reference codec written from the BEPs; bencode dictionaries expected in canonical key order; queue-policy transformations of the writer (reject on overflow/duplicate, choke cancelling queued pieces) are excluded from the generated sequences.", "4/C11"),
  "C12": ("exploration", "two-ended handshake monitor against an independent MSE implementation with enumerated pad lengths; policy matrix against reference endpoints",
-         "Every handshake is observed at both ends: outcome agreement (both fail / both succeed with one offered cipher), byte identity of initial payload and of both stream directions, must-fail cases (wrong key, corrupt VC, illegal selection). The reference side enumerates its own pad lengths (quick: 64 values per pad incl. the boundaries, thorough: all 0..511) under several transport chunkings; btconn.Accept/Dial are run against reference endpoints for every consistent force/disable setting, counting plaintext attempts.",
+         "Every handshake is observed at both ends: outcome agreement (both fail / both succeed with one offered cipher), byte identity of initial payload and of both stream directions, must-fail cases (wrong key, corrupt VC, illegal selection). The reference side enumerates its own pad lengths (all values 0..511 for each of the four pads) under several transport chunkings; btconn.Accept/Dial are run against reference endpoints for every consistent force/disable setting, counting plaintext attempts.",
          "Reference MSE is written from the MSE/PE specification. rain's own pad lengths are random (not controllable without a hook): covered by repetition only. Session-level use of the flags is covered where C10/C17 sessions run with encryption settings.", "4/C12"),
  "C16": ("exploration", "trace monitor vs cyclic tier model; bounded-retry monitor on the announcer at quiescence with load canary; reply fuzzing of the real HTTP/UDP tracker clients in child processes against reference servers",
          "Tier rotation is compared announce by announce with a cyclic model over PRNG success/failure patterns (incl. more failures than members and simultaneous failing announces). The PeriodicalAnnouncer is driven with scripted outcomes (error, timeout, decode error, tracker error, a cancellation it did not request) and, with the real UDP transport, two announcers share a tracker that never answers connect: the next announce must follow within the bounded back-off. Generated HTTP bodies and UDP datagrams (structure-aware, mutated, random; wrong/duplicate/short transactions; endless body) must yield an error or well-formed peers, never a crash or a foreign transaction's peers.",
          "Back-off schedule (5 s x 2^i +-50 %) is a constant of the code: only the first one or two steps are watched; 'indefinitely' is 20-100 announces per pattern. Response-limit oracle measures what a reference server could push (limit + 64 MiB slack for kernel buffers).", "4/C16"),
+ "C18": ("exploration", "reference-model monitors: linear scan vs Blocked() over PRNG rule lists and reloads; reference bounded priority set vs the candidate address queue",
+         "Blocked() is compared with a linear scan at every range endpoint +-1, the extremes and PRNG points after each of 1-4 reloads of generated rule lists (overlapping, nested, adjacent, /0../32, duplicates, comments, malformed lines), also while reloading concurrently. Push/Pop/Reset histories on the address list are compared with a reference bounded priority set after every operation (filters, max-priority pop, bound, no resurrection, per-source counts).",
+         "Session-level 'never dials/accepts/announces to a filtered address' (own address, duplicate IP, banned IP, blocked IP) is observed by the session scenarios of this check once built; until then only the component level is claimed. Eviction victim among equal time stamps is left free.", "4/C18"),
 }
 PENDING = {}
 props = [json.loads(l) for l in open(os.path.join(V, 'properties.jsonl'))]
